@@ -13,7 +13,7 @@ TECHNIQUE = "exhaustive enumeration of (PSD operator term x batch x factorizatio
 RULE = (
     "all PD catalogue terms and PD-preserving depth-2 nestings x batch {(),(2,)} x entry points {cholesky(upper), root_decomposition(method), "
     "root_inv_decomposition(method), eigh, eigvalsh, svd, diagonalization(method)} with every value of the method argument each accepts x "
-    "max_cholesky_size {0, default} x max_root_decomposition_size {n-1 (thorough), n, 2n}; direct methods: exact reconstruction and "
+    "max_cholesky_size {0, default} x max_root_decomposition_size {n-1, n (thorough), default}; direct methods: exact reconstruction and "
     "triangularity / orthonormality; Lanczos-based: R R^T equals the orthogonal compression of A (A^-1) onto span(R), and A (A^-1) itself when the "
     "rank bound reaches n (up to the documented tridiagonal jitter); pivoted Cholesky: PSD residual; non-trivial = n >= 2; distinct = (case, query)"
 )
@@ -31,8 +31,9 @@ def lattice(tier):
     # max_cholesky_size 2 / 3 / 5 sit between the sizes of Kronecker (block, ...) factors (2, 3) and of their product (6, 9): composite
     # operators then mix the dense path of small components with the structured path of the whole
     base = [{}, {"max_cholesky_size": 0}, {"max_cholesky_size": 3}, {"max_cholesky_size": 5}, {"max_cholesky_size": 2}]
+    base += [{"max_cholesky_size": 0, "max_root_decomposition_size": "n-1"}]  # a truncated Lanczos budget
     if tier == "thorough":
-        base += [{"max_cholesky_size": 0, "max_root_decomposition_size": "n"}, {"max_cholesky_size": 0, "max_root_decomposition_size": "n-1"},
+        base += [{"max_cholesky_size": 0, "max_root_decomposition_size": "n"},
                  {"fast_root": False}, {"max_cholesky_size": 0, "fast_root": False}]
     return base
 
